@@ -1,9 +1,12 @@
 /* Executor for CcDisplay behaviours (C08): feeds caption byte pairs through vbi_decode() (line 21 =
  * field 1, line 284 = field 2) and prints, after every pair, the caption events and every cell of
- * the pages of CC1..CC4 (all 34 columns: column 0 and 33 are the margins) that is not a transparent
- * space, as vbi_fetch_cc_page() returns them.  No expectation here.
+ * the pages of CC1..CC4, T1..T4 (all 34 columns: column 0 and 33 are the margins) that is not a blank
+ * cell, as vbi_fetch_cc_page() returns them.  No expectation here.  To keep the lines short the blank
+ * cells are left out; what a blank cell is depends on the page: "so" gives the screen_opacity of every
+ * page as fetched, on a page with a transparent screen (captions) the transparent spaces are left out,
+ * on a page with an opaque screen (text) the plain white-on-black opaque spaces without attributes.
  * stdin: R | P <field 1|2> <b1 hex> <b2 hex>
- * stdout per P: {"ev":[pgno...],"pg":[[ [row,col,unicode,fg,ul,it,fl,opacity,bg],... ] x4]}
+ * stdout per P: {"ev":[pgno...],"so":[screen opacity x8],"pg":[[ [row,col,unicode,fg,ul,it,fl,opacity,bg],... ] x8]}
  */
 #include <stdio.h>
 #include <stdlib.h>
@@ -35,6 +38,8 @@ int main(void)
 		} else if (line[0] == 'P') {
 			unsigned f, a, b;
 			int i, p, r, c;
+			static vbi_page pgs[9];
+			int ok[9];
 			vbi_sliced s;
 			sscanf(line + 1, "%u %x %x", &f, &a, &b);
 			memset(&s, 0, sizeof s);
@@ -46,16 +51,24 @@ int main(void)
 			t += 1 / 29.97;
 			printf("{\"ev\":[");
 			for (i = 0; i < nev; i++) printf("%s%d", i ? "," : "", evs[i]);
+			printf("],\"so\":[");
+			for (p = 1; p <= 8; p++) {
+				ok[p] = vbi_fetch_cc_page(vbi, &pgs[p], p, 0);
+				printf("%s%d", p > 1 ? "," : "", ok[p] ? (int) pgs[p].screen_opacity : -1);
+			}
 			printf("],\"pg\":[");
-			for (p = 1; p <= 4; p++) {
-				static vbi_page pg;
+			for (p = 1; p <= 8; p++) {
+				vbi_page *pg = &pgs[p];
 				int first = 1;
 				printf("%s[", p > 1 ? "," : "");
-				if (vbi_fetch_cc_page(vbi, &pg, p, 0))
-					for (r = 0; r < pg.rows; r++)
-						for (c = 0; c < pg.columns; c++) {
-							vbi_char *x = &pg.text[r * pg.columns + c];
-							if (x->unicode == 0x20 && x->opacity == VBI_TRANSPARENT_SPACE) continue;
+				if (ok[p])
+					for (r = 0; r < pg->rows; r++)
+						for (c = 0; c < pg->columns; c++) {
+							vbi_char *x = &pg->text[r * pg->columns + c];
+							if (pg->screen_opacity == VBI_TRANSPARENT_SPACE) {
+								if (x->unicode == 0x20 && x->opacity == VBI_TRANSPARENT_SPACE) continue;
+							} else if (x->unicode == 0x20 && x->opacity == VBI_OPAQUE && x->background == VBI_BLACK
+								   && x->foreground == VBI_WHITE && !x->underline && !x->italic && !x->flash) continue;
 							printf("%s[%d,%d,%u,%u,%u,%u,%u,%u,%u]", first ? "" : ",", r, c, x->unicode,
 							       x->foreground, x->underline, x->italic, x->flash, x->opacity, x->background);
 							first = 0;
